@@ -59,6 +59,12 @@ OPERATORS = [
     ("del-free-reset", "break", ["C17"], B, r"^[ \t]*self->keys = NULL;\n", "", "drop the reset after free"),
     ("del-decref", "break", ["C16"], T, r"^[ \t]*Py_DECREF\((lowbucket|highbucket|b|e)\);\n", "",
      "delete one Py_DECREF of an owned local"),
+    ("release-in-place", "break", ["C16"], B, r"#ifdef KEY_TYPE_IS_PYOBJECT\n        old_key = self->keys\[i\];\n#endif\n",
+     "        DECREF_KEY(self->keys[i]);\n", "release the deleted key while keys[i] still points at it"),
+    ("release-in-place-t", "break", ["C16"], T, r"dead_key = d->key;", "Py_DECREF(d->key);",
+     "release a separator while the node still points at it"),
+    ("release-early", "break", ["C16"], B, r"(            old_value = self->values\[i\];\n)(#endif\n            COPY_VALUE)",
+     r"\1            Py_DECREF(old_value); old_value = NULL;\n\2", "release the old value before the slot is overwritten"),
     ("del-fini", "break", ["C14"], SO, r"^[ \t]*finiSetIteration\(&i[12]\);\n", "", "delete one finiSetIteration"),
     ("del-fini-merge", "break", ["C14"], M, r"^[ \t]*finiSetIteration\(&i[123]\);\n", "", "delete one finiSetIteration"),
     # ---- conversion ----------------------------------------------------------------
@@ -116,6 +122,7 @@ OPERATORS = [
     ("eq-shift-lines-t", "equiv", ["C05", "C04", "C08", "C03", "C01", "C18"], T, r"\A", "/* moved */\n\n\n", "shift every line of the file"),
     ("eq-unless", "equiv", ["C05", "C13", "C17"], B, r"UNLESS \(PER_USE\(self\)\)", "if (!(PER_USE(self)))", "spell UNLESS as if(!())"),
     ("eq-rename-local", "equiv", ["C05", "C13", "C09", "C01"], B, r"\bcopied\b", "converted_ok", "rename a local everywhere"),
+    ("eq-rename-oldkey", "equiv", ["C16", "C14"], B, r"\bold_key\b", "removed_key", "rename the take-over local everywhere"),
     ("eq-py-shift", "equiv", ["C04", "C07", "C08", "C10", "C12", "C09", "C13", "C02", "C03", "C06", "C01"], PY,
      r"\A", "# moved\n\n", "shift every line of _base.py"),
     ("eq-py-rename", "equiv", ["C07"], PY, r"\bcmpOC\b", "cmp_old_com", "rename a local in the merge"),
@@ -199,7 +206,7 @@ def run_variant(prop, v):
         ms = list(re.finditer(pat, text, re.M))
         m = ms[site]
         new = rep(m) if callable(rep) else m.expand(rep)
-        if oid.startswith("eq-rename") or oid == "eq-py-rename":
+        if oid.startswith("eq-rename") or oid == "eq-py-rename":  # rename everywhere
             text2 = re.sub(pat, rep, text)
         else:
             text2 = text[:m.start()] + new + text[m.end():]
